@@ -424,6 +424,22 @@ int main(void)
 			printf("al=1 in=1 dj=1 ct=%d ## - live=%ld\n", check_all(), trkm_live);
 			goto next;
 		}
+		if (n == 2 && !strcmp(w[0], "freenull")) {
+			/* cx_free(cx, NULL) is a no-op for every allocator: cx_free() filters NULL, no c_free sees it */
+			if (!strcmp(w[1], "libc")) {
+				cx_free(&cx_libc_allocator, NULL);
+				cx_free(NULL, NULL);
+				puts("ok");
+				goto next;
+			}
+			{
+				U(1, s);
+				if (!is_cx(s)) BAD;
+				cx_free(slots[s].cx, NULL);
+				puts("ok");
+			}
+			goto next;
+		}
 		if (n == 2 && !strcmp(w[0], "d")) {
 			U(1, s);
 			int i; char dset[NSLOT];
